@@ -134,10 +134,35 @@ func GetCurrentDBDirName(fs vfs.FS, dir string) (string, error) {
 
 // CreateNodeDataDir creates new SM data dir.
 func CreateNodeDataDir(fs vfs.FS, dir string) error {
+	// Remember the deepest ancestor that already exists, the directories below it are created by MkdirAll.
+	existing := filepath.Dir(dir)
+	for {
+		if _, err := fs.Stat(existing); err == nil {
+			break
+		}
+		parent := filepath.Dir(existing)
+		if parent == existing {
+			// Not even the top of the path can be examined (relative path on an in-memory FS).
+			existing = ""
+			break
+		}
+		existing = parent
+	}
 	if err := fs.MkdirAll(dir, 0o755); err != nil {
 		return err
 	}
-	return syncDir(fs, filepath.Dir(dir))
+	// Sync the parent of every created directory so that the new directory entries are durable.
+	for d := filepath.Dir(dir); ; d = filepath.Dir(d) {
+		if existing == "" && d == filepath.Dir(d) {
+			return nil
+		}
+		if err := syncDir(fs, d); err != nil {
+			return err
+		}
+		if d == existing || d == filepath.Dir(d) {
+			return nil
+		}
+	}
 }
 
 // CleanupNodeDataDir cleans up old data dir (should be called after successful switch).
